@@ -20,7 +20,7 @@ STUBS = ["skimage.img_as_float on an array that is already float = identity"]
 OUTSIDE = ["pixel semantics of curvature / colour / illumination / active translation and drift corrections (skimage, scipy map_coordinates, cv2.warpAffine, feature matching)", "dtype equality for neutral corrections (RotationCorrection always returns float64): value equality is asserted"]
 ASSUMPTIONS = ["a correction's correct_array returns a new array (all DarSIA corrections do); in-place array corrections are outside"]
 
-CORRS = ["affine_generic", "crop_generic", "rotation_neutral", "transformation_identity", "drift_inactive", "translation_inactive", "type_float"]
+CORRS = ["affine_generic", "crop_generic", "rotation_neutral", "transformation_identity", "drift_inactive", "translation_inactive", "type_float", "illumination_rgb", "illumination_scalar"]
 
 
 def bounds(tier):
@@ -116,6 +116,20 @@ def make_correction(darsia, name, shape, tag=""):
         return d.TranslationCorrection(), (lambda a: a), {}
     if name == "type_float":
         return d.TypeCorrection(float), (lambda a: a), {}
+    if name.startswith("illumination"):
+        # the real IlluminationCorrection with a given (symbolic) local scaling -- calibration is outside
+        ic = d.IlluminationCorrection()
+        ic.colorspace = "rgb" if name.endswith("rgb") else "hsl-scalar"
+        L = [S.array(f"{tag}L{i}", shape, lo="1/2", hi=2) for i in range(3 if name.endswith("rgb") else 1)]
+        ic.local_scaling = [d.ScalarImage(x.copy(), dimensions=[1.0, 2.0]) for x in L]
+
+        def oracle(a):
+            out = a.copy()
+            for i in range(3):
+                out[..., i] = a[..., i] * L[i if len(L) == 3 else 0]
+            return out
+
+        return ic, oracle, {}
     raise ValueError(name)
 
 
@@ -188,10 +202,15 @@ def body(cfg):
     scalar = S.boolean("scalar")
     ow = S.boolean("overwrite")
     series, scalar, ow = bool(series), bool(scalar), bool(ow)
+    nch = 2
+    if cfg["corr"].startswith("illumination"):
+        if scalar:
+            raise S.HarnessSkip("illumination correction is defined for colour images only")
+        nch = 3
     if cfg["corr"] in ("drift_inactive",) and scalar and False:
         pass
     T = cfg["T"]
-    full = shape + ((T,) if series else ()) + (() if scalar else (2,))
+    full = shape + ((T,) if series else ()) + (() if scalar else (nch,))
     a = S.array("a", full, lo=-10, hi=10)
     kw = dict(dimensions=list(dims), origin=list(org), scalar=scalar, series=series, name="input")
     if series:
